@@ -58,6 +58,12 @@ for _reach in ("ctor", "moved-column", "assign-list", "ctor-twin-table"):
             CELLS.append(f"mixed/{_reach}/{_side}/{_inl}")
 for _reach in ("ctor", "assign"):
     CELLS.append(f"composite-inline/{_reach}")
+# sides of different lengths: the column that was never attached sits beyond the end of the shorter side
+for _side in ("col1", "col2"):
+    CELLS.append(f"endpoint-detached/never-attached-uneven/{_side}/block")
+# one side mixes two tables, the other side was emptied afterwards (in place, or by assigning an empty list)
+for _how in ("del-slice", "assign-empty"):
+    CELLS.append(f"mixed/other-side-emptied-{_how}/col1/block")
 for _reach in ("table-never-added", "table-deleted", "table-deleted-by-equal-twin", "column-of-detached-table",
                "column-without-table"):
     CELLS.append(f"detached-lookup/{_reach}")
@@ -314,6 +320,15 @@ class C17Engine(C10.C10Engine):
                         rdb.refs[:] = [x for x in rdb.refs if x is not o]
                         o.database = None
                 return
+            if reach == "never-attached-uneven":
+                loose = C.Column("loose", "int")
+                long_side = [real[g.choice(m[t2]["cols"])], loose]
+                short_side = [real[g.choice(m[t1]["cols"])]]
+                o = C.Reference(g.choice([">", "<", "-"]), long_side if side == "col1" else short_side,
+                                short_side if side == "col1" else long_side)
+                self.expect_raises(cell, "ref.sql", lambda: o.sql, TNF, ctx)
+                self.expect_raises(cell, "ref.dbml", lambda: o.dbml, TNF, ctx)
+                return
             if reach == "delete-equal-twin":
                 # the endpoint column is deleted through an equal column of a same-named twin table
                 cand = [r for r in d["refs"]]
@@ -459,6 +474,16 @@ class C17Engine(C10.C10Engine):
                 o = C.Reference(typ, mixed_side if side == "col1" else clean_side,
                                 clean_side if side == "col1" else mixed_side, inline=inl)
                 heal: Callable[[], None] = lambda: None
+            elif reach.startswith("other-side-emptied"):
+                o = C.Reference(typ, mixed_side, list(clean_side))
+                if reach.endswith("del-slice"):
+                    del o.col2[:]
+                else:
+                    o.col2 = []
+                self.expect_raises(cell, "ref.table1", lambda: o.table1, DBE, ctx)
+                self.expect_raises(cell, "ref.table2", lambda: o.table2, DBE, ctx)
+                self.expect_raises(cell, "ref.dbml", lambda: o.dbml, DBE, ctx)
+                return
             elif reach == "assign-list":
                 o = C.Reference(typ, [ca] if side == "col1" else clean_side, clean_side if side == "col1" else [ca],
                                 inline=inl)
